@@ -247,7 +247,7 @@ CHECKS = [
               "nothing missing/extra, schema-valid output, total = sum of totals",
           bounds=dict(quick="k<=3 inputs, K<=2 pixels each, n<=3 bins, mergebuf 1..total+1, sum and max", thorough="k<=3, K<=3 each, n<=4"),
           stubs=("E3 in-memory h5py model", "E4 pandas models (concat, groupby-aggregate)", "inputs constructed in the store under the C02 invariant"),
-          timeout=2400),
+          timeout=3400, split_depth=9),
     Check("overflow", lambda tier: [dict()], overflow_sym, overflow_real, labels=("exceeds_int32",) if not known_active("F12") else (),
           doc="two int32 inputs with arbitrary positive counts: stored aggregate == exact sum or the merge is refused",
           bounds=dict(values="full positive int32 range")),
